@@ -140,7 +140,7 @@ def o1(ctx):
                     n += 1
                     ctx.check((b.file or "").endswith(SLOTF), "construction-site:" + C.fkey(root), "Slot(..) constructed in %s" % C.short(root.id),
                               "Slot(..) is constructed outside slot.rs in %s" % C.short(root.id), where_of(b, bi, s.get("line")))
-    ctx.floor("Slot(..) construction sites", n, 6)
+    ctx.floor("Slot(..) construction sites", n, 4)
     # writers of the table
     for fld in ("fresh_idx", "named_vec", "named_map"):
         w = C.writers(crate, "slot::SlotTable", fld)
@@ -257,7 +257,7 @@ def o2(ctx):
                 ctx.check(iv == v, "O6:inserted-value-is-returned", "the value inserted into named_map (%r) is the slot returned" % (iv,), "named_map gets %r but the slot returned is %r" % (iv, v), where_of(ncl))
                 ctx.check(isinstance(iv, Aff) and iv.mod4() == 2, "O6:map-values-2mod4", "values inserted into named_map are 2 mod 4 (inductive invariant)", "named_map receives %r" % (iv,), where_of(ncl))
     ctx.check(kinds["f"] >= 2 and kinds["hit"] >= 1 and kinds["new"] >= 1, "paths-covered", "paths through Slot::named's closure: %s" % kinds, "unexpected path structure in Slot::named: %s" % kinds, where_of(ncl))
-    ctx.floor("Slot(..) constructions interpreted", sites, 6)
+    ctx.floor("Slot(..) constructions interpreted", sites, 4)
     ctx.extra["obligation_paths"] = {"named_closure_paths": len(paths)}
 
 
